@@ -17,7 +17,7 @@ From Coq Require Import ZArith List Bool.
 From V Require Import Base.Int Base.IO.
 From V Require Import Spec.Zone Proofs.TzCommon.
 From V Require Spec.Gregorian.
-From V Require Import Model.TzParser Model.TzRule Model.TzLookup Model.C05 Proofs.C05 Proofs.C05Composite Proofs.C05Glue Proofs.C05Judge Proofs.C05Wide Proofs.C05Full.
+From V Require Import Model.TzParser Model.TzRule Model.TzLookup Model.C05 Proofs.C05 Proofs.C05Composite Proofs.C05Glue Proofs.C05Judge Proofs.C05Wide Proofs.C05Full Proofs.C05Holds.
 From V Require Model.Date Model.DateTime.
 Import ListNotations.
 Open Scope Z_scope.
@@ -875,6 +875,47 @@ Theorem C05_from_local_values_example :
   end.
 Proof. exact exg_facts. Qed.
 Print Assumptions C05_from_local_values_example.
+
+(** ** The theorems' hypotheses against the JUDGE's domain (Proofs/C05Holds.v), at the level of the
+    lookup: whenever the judge has an expectation for a wall-clock reading w ([J.expected_loc] = Some l,
+    i.e. none of its skip conditions applies: zone model well formed, w within the date range less
+    three days, every offset of the zone below a day, the property's premise in the years y-2..y+2 of w,
+    w not an excepted second, no undetermined instant) on a zone that is well spaced at w
+    ([J.spacing_ok]: the condition by which gen/C05.py routes a reading to lz.loc / lz.sel rather than
+    to the known-finding ops lz.uloc / lz.usel -- the judge's lz.loc branch itself does not test it),
+    the answer of find_local_time_type_from_local, read as offsets earliest first, IS the judge's
+    expected list.  From there to the output of the op: C05_from_local_values_candidates.
+    The judge's domain is wider than the hypotheses of C05_rule_zone_classification in one respect:
+    it asks for the premise in y-2..y+2, the theorem (rule_year_hyps) in y-3..y+2; the year y-3 is a
+    hypothesis of C05_holds_loc_rule (closing it needs the crude bound that a rule transition of year
+    y-3 lies before year y-1, from C05_transition_date).  Composite zones: the bridge is
+    C05_judge_spacing_footer_wide (hypotheses of C05_composite_classification_wide from the judge's
+    spacing condition). *)
+Theorem C05_holds_loc_table : forall zone ps first y w l,
+  table_zone zone ps first -> extra_rule zone = None -> increasing (offs ps) = true ->
+  J.spacing_ok (szone_of ps first) w = true ->
+  J.expected_loc (zone_offsets (szone_of ps first)) (szone_of ps first) w = Some l ->
+  exists m, find_local_time_type_from_local zone y w = Val (Ok m) /\ mlt_list (mlt_map m ut_offset) = l.
+Proof. exact holds_loc_table. Qed.
+Print Assumptions C05_holds_loc_table.
+Theorem C05_holds_loc_rule : forall zone a first w l,
+  let r := conv_rule a in let k := utc_year w in
+  let rz := mk_szone (ut_offset first) [] (Some (inr r)) in
+  transitions zone = [] -> index (local_time_types zone) 0 = Val first ->
+  extra_rule zone = Some (Alternate a) -> alt_ok a -> r_std r <> r_dst r ->
+  J.spacing_ok rz w = true -> premise_year r (k - 3) = true ->
+  J.expected_loc (zone_offsets rz) rz w = Some l ->
+  exists m, find_local_time_type_from_local zone k w = Val (Ok m) /\ mlt_list (mlt_map m ut_offset) = l.
+Proof. exact holds_loc_rule. Qed.
+Print Assumptions C05_holds_loc_rule.
+Theorem C05_holds_loc_example :
+  J.spacing_ok (szone_of ex_ps ex_cet) 1698546600 = true /\
+  J.expected_loc (zone_offsets (szone_of ex_ps ex_cet)) (szone_of ex_ps ex_cet) 1698546600 = Some [7200; 3600] /\
+  J.spacing_ok exr_rz 1729996200 = true /\ premise_year (conv_rule exc_rule) (utc_year 1729996200 - 3) = true /\
+  J.expected_loc (zone_offsets exr_rz) exr_rz 1729996200 = Some [7200; 3600] /\
+  J.expected_loc (zone_offsets exr_rz) exr_rz 1711852200 = Some [].
+Proof. exact holds_examples. Qed.
+Print Assumptions C05_holds_loc_example.
 
 (** ** Known finding C05-closely-spaced-transitions: the spacing hypothesis of
     C05_classification_table / C05_roundtrip_table cannot be dropped *)
